@@ -17,7 +17,9 @@ Class(r) ==
   ELSE IF ~r.quiet THEN ""
   ELSE IF \E j \in DOMAIN r.obs : r.obs[j].nactive > 1 THEN "callbacks-overlap"
   ELSE IF Proj(r.obs) \in Range(r.preds) THEN ""
-  ELSE IF \E j \in DOMAIN r.obs : \E x \in DOMAIN r.obs[j].cb : r.obs[j].cb[x] < 0 THEN "initialize-not-cache-content"
+  ELSE IF \E j \in DOMAIN r.obs : \E x \in DOMAIN r.obs[j].cb : r.obs[j].cb[x] = -1 THEN "initialize-not-cache-content"
+  \* -2 / -3: OnCreate / OnDelete was called although only updates were published
+  ELSE IF \E j \in DOMAIN r.obs : \E x \in DOMAIN r.obs[j].cb : r.obs[j].cb[x] < -1 THEN "callback-not-next-event"
   ELSE IF \E j \in DOMAIN r.obs : r.obs[j].cb # <<>> /\ r.obs[j].cb[1] # 0 THEN "initialize-not-first-or-twice"
   ELSE "monitor-history-not-allowed"
 
